@@ -303,7 +303,7 @@ func targetObjects(fa fileAccess, vals []Val, stop map[int]bool) ([]DstObj, erro
 	for _, v := range vals {
 		push(v)
 	}
-	var out []DstObj
+	out := []DstObj{}
 	for len(queue) > 0 {
 		n := queue[0]
 		queue = queue[1:]
